@@ -35,8 +35,12 @@ INSTANCES = {
                    # small: every history is exported (three connections with every mix of accepted / rejected / session-present CONNACKs under every rejoin policy)
                    inst(Which='{"C07"}', CfgSet="Cfg_Rejoin", ConnackSet="Ck_Handshake", EarlyConnack="FALSE", MaxConns=3, MaxOps=0, Others='{}', Caps="{3}", _export_every=1)],   # 730 / 5 s
          "thorough": [inst(Which='{"C07"}', CfgSet="Cfg_RejoinBig", ConnackSet="Ck_Handshake", EarlyConnack="TRUE", MaxConns=3, MaxOps=1, Others='{"Disconnect", "Pingresp", "Reset", "Garbage", "Auth", "ServerDisconnect"}', Horizon=3, Deadline=2, AckHows='{"normal", "dup"}')]},
- "C08": {"quick": [inst(Which='{"C08"}', CfgSet="Cfg_Wake", SubmitSet="Sub_Big2", ConnackSet="Ck_Rm1Ka", Faithful="TRUE", Horizon=3, Deadline=3, Others='{"Pingresp"}', Caps="{1, 2}", MaxConns=1)],   # 111k / 24 s
-         "thorough": [inst(Which='{"C08"}', CfgSet="Cfg_Wake", SubmitSet="Sub_Big", ConnackSet="Ck_Rm1Ka", Faithful="TRUE", Horizon=4, Deadline=3, Others='{"Pingresp", "Disconnect"}', Caps="{1, 2}")]},
+ # EngineLive adds AlwaysDrains: from every connected state a faithful driver and a responsive broker finish every operation (69 s)
+ "C08": {"quick": [inst(Which='{"C08"}', CfgSet="Cfg_Wake", SubmitSet="Sub_Big2", ConnackSet="Ck_Rm1Ka", Faithful="TRUE", Horizon=3, Deadline=3, Others='{"Pingresp"}', Caps="{1, 2}", MaxConns=1,
+                        DrainFuel=60, _module="EngineLive", _more_invariants=["AlwaysDrains"])],   # 111k / 69 s
+         "thorough": [inst(Which='{"C08"}', CfgSet="Cfg_Wake", SubmitSet="Sub_Big", ConnackSet="Ck_Rm1Ka", Faithful="TRUE", Horizon=4, Deadline=3, Others='{"Pingresp", "Disconnect"}', Caps="{1, 2}",
+                           DrainFuel=80, _module="EngineLive", _more_invariants=["AlwaysDrains"]),
+                      inst(Which='{"C08"}', CfgSet="Cfg_Drain", SubmitSet="Sub_Acked", ConnackSet="Ck_Rm", Faithful="FALSE", MaxOps=2, MaxConns=2, DrainFuel=80, _module="EngineLive", _more_invariants=["AlwaysDrains"])]},
  "C09": {"quick": [inst(Which='{"C09"}', CfgSet="Cfg_Drain", ConnackSet="Ck_Rm", MaxOps=3, SubmitSet="Sub_Acked")],                                                                   # 417k / 50 s
          "thorough": [inst(Which='{"C09"}', CfgSet="Cfg_Drain", ConnackSet="Ck_Rm", MaxOps=3, MaxConns=3, SubmitSet="Sub_Acked", AckWhich='{"oldest", "newest"}')]},
  "C10": {"quick": [inst(Which='{"C10"}', SubmitSet="Sub_Mix3", MaxOps=3, ConnackSet="Ck_Rm1Plain")],
@@ -67,7 +71,7 @@ def cfg_text(d, invariants=None):
             continue
         lines.append("  %s %s %s" % (k, "<-" if k in SUBST else "=", v))
     lines.append("VIEW View")
-    for i in (invariants or STATE_INVARIANTS):
+    for i in (invariants or STATE_INVARIANTS) + list(d.get("_more_invariants", [])):
         lines.append("INVARIANT " + i)
     lines.append("CHECK_DEADLOCK FALSE")
     return "\n".join(lines) + "\n"
